@@ -100,6 +100,8 @@ type Server struct {
 	InfoExtra map[string]string
 	// RealClock: NowMs follows the wall clock (set before each request)
 	RealClock bool
+	// ClockStepMs > 0: a virtual clock that advances by this much at every request
+	ClockStepMs int64
 	// Unknown commands: if true they are accepted as opaque writes to args[0]
 	AcceptUnknown bool
 }
@@ -220,6 +222,7 @@ func (s *Server) serve(c *conn) {
 		if s.RealClock {
 			s.NowMs = time.Now().UnixMilli()
 		}
+		s.NowMs += s.ClockStepMs
 		if s.KeepRaw {
 			s.Raw = append(s.Raw, Entry{Seq: s.Recv, Conn: c.id, DB: c.db, Name: name, Args: args[1:], InMulti: c.inMulti})
 		}
